@@ -91,6 +91,14 @@ func verifSubject(n int) string {
 	if verifParam("mode") == "b" {
 		return string(verifBytes("b", n))
 	}
+	if al := verifParam("alphabet"); al != "" {
+		// longer subjects over a small ASCII alphabet (each byte a solver variable constrained to the set)
+		b := make([]byte, n)
+		for i := range b {
+			b[i] = verifByteIn("a"+strconv.Itoa(i), al)
+		}
+		return string(b)
+	}
 	return string(verifScalars("t", n))
 }
 
